@@ -28,7 +28,7 @@ def known_sig(t, l, clause):
         wr['kind'] == 'tk' and wr['frm'] == 'DELAYED' and wr['to'] in ('SUCCESS', 'ERROR') and st['ev']['what'] == 'on_action_complete'
         for st in t['steps'][:l] for wr in st['ev'].get('writes', []))
     ev = t['steps'][l - 1]['ev']
-    if clause in ('NoHang', 'NoWaitingAtRest'):
+    if clause in ('NoHang', 'NoWaitingAtRest', 'Prescribed'):
         # KF_ResumeJoinNoRefresh: a join still WAITING at rest whose row was created by a resume step
         first = {}
         for k, s in enumerate(t['steps'][:l]):
@@ -52,7 +52,7 @@ def known_sig(t, l, clause):
                         tfr = True
     out['timeout_beat_running_action_of_retry_task'] = tfr
     noreset = [k for k, st in enumerate(t['steps'][:l]) if st['ev']['kind'] == 'op' and st['ev']['what'] == 'rerun' and st['ev'].get('arg') == 'noreset']
-    if clause in ('NoHang', 'NoWaitingAtRest') and noreset:
+    if clause in ('NoHang', 'NoWaitingAtRest', 'Prescribed') and noreset:
         o = t['steps'][l - 1]['obs']
         stuck = []
         for x in o['tk']:
@@ -62,7 +62,7 @@ def known_sig(t, l, clause):
                     stuck.append(x['sid'])
         out['items_task_stuck_after_noreset_rerun'] = bool(stuck)
     reruns = [k for k, st in enumerate(t['steps'][:l]) if st['ev']['kind'] == 'op' and st['ev']['what'] == 'rerun' and st['ev']['exc'] == 'none']
-    if clause in ('OnePerIndex', 'CompleteAfterAll', 'WithItemsFinalState', 'WithinLimit', 'NoHang', 'NoStuckTaskAtRest') and reruns:
+    if clause in ('OnePerIndex', 'CompleteAfterAll', 'WithItemsFinalState', 'WithinLimit', 'NoHang', 'NoStuckTaskAtRest', 'Prescribed') and reruns:
         # rerun of a with-items task with concurrency: an index is started again while its re-execution is still running
         k0 = reruns[-1]
         target = t['steps'][k0]['ev'].get('target', '')
@@ -77,7 +77,7 @@ def known_sig(t, l, clause):
                         dup_running = True
                     seen[a['sid']] = a['idx']
         out['rerun_started_index_twice_while_running'] = dup_running
-    if clause in ('PartialRerunOnlyFailed', 'OnePerIndex', 'CompleteAfterAll', 'WithItemsFinalState') and noreset:
+    if clause in ('PartialRerunOnlyFailed', 'OnePerIndex', 'CompleteAfterAll', 'WithItemsFinalState', 'Prescribed') and noreset:
         k = noreset[-1]
         before = t['steps'][k - 1]['obs'] if k >= 1 else {'ax': [], 'wf': []}
         target = t['steps'][k]['ev'].get('target', '')
@@ -157,7 +157,7 @@ def catalogue_model_runs(d, tier, liveness_for=('diamond_j-1_ok', 'nested_join_i
     return out
 
 
-def run_property(pid, tier, jobs, nontrivial_rule, nontrivial_fn, model_runs=None, extra=None, strict=False):
+def run_property(pid, tier, jobs, nontrivial_rule, nontrivial_fn, model_runs=None, extra=None, strict=False, prescribed=False):
     t0 = time.time()
     verdict = common.Verdict(pid)
     d = common.builddir(pid.lower(), clean=True)
@@ -188,6 +188,26 @@ def run_property(pid, tier, jobs, nontrivial_rule, nontrivial_fn, model_runs=Non
     trans += tr
     mine, other = engcheck.report(pid, verdict, traces, viols, extra_sig=known_sig)
     strict_info = {}
+    if prescribed:
+        from harness import prescribed as presc
+        bad, njudged, st3, tr3 = presc.judge(d, traces)
+        states += st3
+        trans += tr3
+        for i in sorted(bad):
+            t = traces[i]
+            fin = presc.final_of(t)
+            sig = {'clause': 'Prescribed', 'shape': engcheck.shape_sig(t['prog']), 'ops': [o['op'] for o in t['meta'].get('ops', [])]}
+            sig.update(known_sig(t, len(t['steps']), 'Prescribed'))
+            verdict.violation(sig, 'Prescribed false: the final outcome of run [%s scheduler=%s policy=%s seed=%s] - execution %s, tasks %s - is not an '
+                                   'outcome the language semantics (WfSemantics) prescribes for this definition and these action results %s'
+                              % (t['meta'].get('label'), t['meta']['scheduler'], t['meta']['policy'], t['meta']['seed'], fin['wf'],
+                                 sorted(map(tuple, fin['tasks'])), presc.effective_outcomes(t)),
+                              {'yaml': t['meta'].get('yaml'), 'meta': {k: v for k, v in t['meta'].items() if k not in ('yaml',)},
+                               'final': fin, 'effective_outcomes': presc.effective_outcomes(t), 'events': [s_['ev'] for s_ in t['steps']],
+                               'failing_step': len(t['steps']), 'obs_at_failure': t['steps'][-1]['obs'],
+                               'oracle': {k: v['outcome'] for k, v in t['prog']['tasks'].items()}})
+        strict_info['outcomes_judged_by_WfSemantics'] = njudged
+        strict_info['outcomes_not_prescribed'] = len(bad)
     if strict:
         from harness import engmodel
         scope = [t for t in traces if engmodel.in_scope(t)]
@@ -205,7 +225,7 @@ def run_property(pid, tier, jobs, nontrivial_rule, nontrivial_fn, model_runs=Non
                         verdict.divergence('run [%s policy=%s seed=%s] is not a behaviour of MistralEngine: matched %d of %d steps, next event %s:%s%s'
                                            % (t['meta'].get('label'), t['meta']['policy'], t['meta']['seed'], k, len(t['steps']),
                                               nxt.get('kind'), nxt.get('what'), ('/' + nxt.get('phase')) if nxt.get('phase') else ''))
-            strict_info = {'traces_in_model_scope': len(scope), 'traces_accepted_strict': len(acc), 'divergences': ndiv}
+            strict_info.update({'traces_in_model_scope': len(scope), 'traces_accepted_strict': len(acc), 'divergences': ndiv})
     nontrivial = set()
     for t in traces:
         k = nontrivial_fn(t)
